@@ -257,6 +257,10 @@ def _judge(acc: Acc, lang, files, occ, run, k, L, m, pl, deco, mo, vs, r, rootst
     acc.case()
     acc.valid()
     predicted = L >= k and m >= mo
+    # back-to-back copies form a periodic text: every rotation of the run is a duplicate as well, so
+    # WHICH windows are reported is not determined; coverage is judged by intersection there and
+    # the occurrence count / exact extent are not judged
+    loose = pl in ("adjacent", "periodic")
     if predicted:
         acc.nt((lang, k, L, m, pl, deco, mo))
     if vs is None:
@@ -295,7 +299,14 @@ def _judge(acc: Acc, lang, files, occ, run, k, L, m, pl, deco, mo, vs, r, rootst
                 acc.fail({"mode": "named-file-not-in-run", **dim}, case, sorted(files), rf)
                 continue
             theirs = norm_lines(lang, files[rf], s, e)
-            if mine != theirs:
+            if loose:
+                a2 = [x for x in mine if x.strip("{}();")]
+                b2 = [x for x in theirs if x.strip("{}();")]
+                n2 = min(len(a2), len(b2))
+                same = n2 >= min(k, 1) and a2[:n2] == b2[:n2]
+            else:
+                same = mine == theirs
+            if not same:
                 acc.fail({"mode": "named-location-not-identical", **dim}, {**case, "violation": p}, mine, theirs, "normalised text at the violation and at the named location differ")
             hit = any(q["file"] == rf and not (q["line"] + q["n"] - 1 < s or q["line"] > e) for q in parsed)
             if not hit:
@@ -303,10 +314,14 @@ def _judge(acc: Acc, lang, files, occ, run, k, L, m, pl, deco, mo, vs, r, rootst
     # completeness
     for (f, first, last) in occ:
         acc.edge()
-        if not any(q["file"] == f and first <= q["line"] <= last for q in parsed):
+        if loose:
+            hit = any(q["file"] == f and q["line"] <= last and q["line"] + q["n"] - 1 >= first for q in parsed)
+        else:
+            hit = any(q["file"] == f and first <= q["line"] <= last for q in parsed)
+        if not hit:
             acc.fail({"mode": "occurrence-not-covered", **dim, "L_vs_k": "L==k" if L == k else ("L>k" if L > k else "L<k")}, {**case, "occurrence": [f, first, last]}, f"a violation starting in {f}:{first}-{last}", [(q["file"], q["line"], q["n"]) for q in parsed])
     # occurrence count (single-window case only: L == k, so exactly one block per place)
-    if L == k:
+    if L == k and not loose:
         for q in parsed:
             if q["k"] != m:
                 acc.fail({"mode": "wrong-occurrence-count", **dim}, {**case, "violation": q}, m, q["k"])
